@@ -99,11 +99,10 @@ class NetworkXGraphStorageDisjoint:
             # check this graph_id isn't already present
             self.lock.acquire()
             try:
-                if graph_id in self.graphs.keys():
-                    # graph already present, warn and exit
+                if graph_id in self.graphs.keys() and len(self.graphs[graph_id].nodes) > 0:
+                    # graph already present, warn and exit (the lock is released in finally)
                     if self.log is not None:
                         self.log.warn('Attempting to insert a graph with the same GraphID, skipping')
-                    self.lock.release()
                     return
                 # relabel incoming graph nodes to integers, then add
                 temp_graph = nx.convert_node_labels_to_integers(graph, 1)
